@@ -89,6 +89,10 @@ def node_table(run: Run):
     out = {}
     for n in run.engine.method_manager.program.get_all_nodes():
         out[n.id] = {"cls": type(n).__name__, "completed": n.completed, "failed": n.failed, "runlog_name": n.runlog_name}
+    for inj in run.injected_nodes:          # instructions of injected code (not part of the program tree)
+        for n in inj.get_child_nodes(recursive=True):
+            out[n.id] = {"cls": type(n).__name__, "completed": n.completed, "failed": n.failed, "runlog_name": n.runlog_name,
+                         "injected": True}
     return out
 
 
@@ -162,6 +166,8 @@ def explore_program(item):
             reqs = [("user", "Stop"), ("user", "Pause"), ("user", "Restart")]
             for k in range(n_items):
                 reqs += [("cancel", k), ("force", k)]
+            if t <= 10:
+                reqs += [("inject", "Mark: j"), ("inject", "Inst\nMark: j"), ("inject", "Long: 2")]
             for req in reqs:
                 probs, _ = run_one(lines, ((t, req),))
                 execs += 1
@@ -213,7 +219,7 @@ def run(ctx):
     ctx.coverage.update(
         states=execs * HORIZON, transitions=execs * HORIZON, traces_validated_against_impl=execs,
         evaluations=execs, distinct_nontrivial=nontrivial, programs=len(items),
-        rule="each program alone and with one request (Stop/Pause/Restart, cancel or force of run-log item k) at every tick; the "
+        rule="each program alone and with one request (Stop/Pause/Restart, cancel or force of run-log item k, code injected at ticks <= 10: Mark / Inst+Mark / Long) at every tick; the "
              "run log is produced and checked after every tick (states = ticks observed); non-trivial = executions with a deviation",
         samples=[items[1][0], items[len(items) // 2][0], items[-1][0]], exhaustive=True, horizon=HORIZON)
     ctx.assumptions += ["X becomes 2.0 at tick 4", "one deviation per execution"]
